@@ -282,6 +282,19 @@ theorem take_repeat (n F : Nat) (d : Data) (hn : 1 ≤ n) (hF : n ≤ F) (w : Wo
     rw [this.2.2.2.1, hc]
     exact Rx.C02.take_cancels n _ hne hle
 
+/-- C06 for `interval(d).take_while(p)`: as soon as the counter reaches a value that fails `p` (within the loop bound) the
+    producer's observer is unsubscribed - for every predicate and every loop bound -/
+theorem takeWhile_interval_stops (p : Pred) (F : Nat) (h : ¬ (countFrom 0 F).all p.app = true) (w : World) (hw : Ready w) :
+    ∃ N, ∀ fuel, N ≤ fuel →
+      upstreamCancelled w (run fuel [subscribeInterval (kTakeWhile p) F] w) = true := by
+  obtain ⟨N, hs⟩ := stdOp_sim_interval (kTakeWhile p) (we_kTakeWhile p) w hw F
+  refine ⟨N, fun fuel hf => ?_⟩
+  have hc := cancelled_exact (kTakeWhile p) (af_kTakeWhile p) (countFrom 0 F, .silent)
+  have hsil : (Ending.silent != Ending.silent) = false := rfl
+  simp only [hsil, Bool.or_false] at hc
+  rw [(hs fuel hf).2.2.2.1, hc]
+  exact Rx.C02.takeWhile_cancels p (countFrom 0 F, .silent) h
+
 end Rx.Sim
 
 -- non-vacuity: interval under take 2, loop bound 5 and loop bound 50, on the machine: the same log, producer stopped
@@ -296,3 +309,4 @@ example : Sim.upstreamCancelled {} (run 400 [Sim.subscribeInterval (kTake 2) 50]
 #print axioms Rx.Sim.take_repeat
 #print axioms Rx.Sim.intervalLoop_spec
 #print axioms Rx.Sim.repeatLoop_spec
+#print axioms Rx.Sim.takeWhile_interval_stops
